@@ -544,6 +544,10 @@ def _nontrivial(case):
 
 def run_shard(shard):
     acc = Acc()
+    # one written-out case per shard (the runner keeps the first four): a permuted table with missing entries, or a malformed one
+    want_sample = shard.get("idtype", "str") == "str" and shard.get("form", "columns") == "columns"
+    if shard["family"] == "malform":
+        want_sample = shard["order"] == "interleaved" and shard["layout"] == "joint"
     for case in _cases_of(shard):
         outcome, findings, n_exec = check_case(case)
         acc.evaluation(n_exec)
@@ -551,8 +555,11 @@ def run_shard(shard):
         acc.count("cases:" + shard["family"] + ":" + case["layout"])
         if _nontrivial(case):
             acc.nontriv(digest(case))
-            if len(case["rows"]) >= 3:
-                acc.sample({"case": case, "table": T.build_frame(case).reset_index().astype(str).values.tolist(), "outcome": outcome})
+            rows = [tuple(r) for r in case["rows"]]
+            if want_sample and len(rows) >= 3 and rows != sorted(rows) and (case["mal"] or case["nan"] or case["layout"] == "event"):
+                frame = T.build_frame(case).reset_index()
+                acc.sample({"case": case, "columns": [str(c) for c in frame.columns], "table": frame.astype(str).values.tolist(), "outcome": outcome})
+                want_sample = False
         for sig, exp, obs in signatures(case, findings, acc):
             acc.violation(sig, f"expected {str(exp)[:500]} ; observed {str(obs)[:500]}", case, expected=exp, observed=obs)
     return acc.to_dict()
